@@ -213,3 +213,36 @@ class PbInvW(Contract):
 
 class _AdaptCur(_Adapt):
     def cur(s, name): return s.c.cur(PbW.amap.get(name, name))
+
+
+class PbTrigW(Contract):
+    file = 'algopy/utpm/utpm.py'; objtuples = {'out': 1}; modifies = ('out.0.data',); returns = 'any'
+    cfgs = {'distinct': {}}; dataflow = True; timeout_ms = 8000; cex_D = ()
+    property_ids = ('C03', 'C06', 'C14')
+    bar = None; val = None; other = None; sign = 1
+    skolem_instances = True
+    def spec_instances(self, c, n):
+        # the partner seed is a fresh zero polynomial: its Cauchy product with the partner value vanishes (definition + zero-sum lemma)
+        Z = z3.K(z3.IntSort(), z3.RealVal(0)); v = c.pre[self.val + '.data']
+        return (S.conv_def(c, Z, v, n) if self.sign > 0 else S.conv_def(c, Z, v, n))
+    @property
+    def objs(self): return (self.bar, 'x', self.val)
+    @property
+    def arrays(self): return (self.bar + '.data', 'x.data', self.val + '.data', 'out.0.data')
+    def requires(self, c): return []
+    def ensures(self, c):
+        from .pullbacks import lam
+        x = c.pre['x.data']; b = c.pre[self.bar + '.data']; o0 = c.pre['out.0.data']; o = c.cur('out.0.data')
+        g = lam(lambda i: self.other(x, i))
+        return [("out[0].data' = out[0].data %s %s (*) %s(x)" % ('+' if self.sign > 0 else '-', self.bar, self.other.name()),
+                 c.forall(0, c.D, lambda j: o[j] == o0[j] + self.sign * S.CONV(b, g, j)))]
+    def sample_x0(self, name, rng): return round(rng.uniform(0.2, 0.9) * 16) / 16
+    def native_scalars(self, cfg, rng): return {}
+    def oracle(self, inp, scal, cfg):
+        s_, c_ = SI.sincos(inp['x.data']); g = c_ if self.sign > 0 else s_
+        return {'out.0.data': SI.add(inp['out.0.data'], SI.scale(SI.conv(inp[self.bar + '.data'], g), self.sign))}
+
+@register
+class PbSinW(PbTrigW): qual = 'UTPM.pb_sin'; bar = 'sbar'; val = 's'; other = S.COS; sign = 1
+@register
+class PbCosW(PbTrigW): qual = 'UTPM.pb_cos'; bar = 'cbar'; val = 'c'; other = S.SIN; sign = -1
